@@ -1033,9 +1033,8 @@ func ConvertZToMinMaxAltitudekey(inputIndex int64, inputZoom int64, outputZoom i
 	if err != nil {
 		return 0, 0, err
 	}
-	// inputIndex+1 is an exclusive bound: for the top index of inputZoom it does not exist as an index itself,
-	// and the key it maps to may lie one past the last key of outputZoom. Only the returned keys are validated.
-	upperBound := calculateAltitudekey(inputIndex+1, inputZoom, outputZoom, zBaseExponent, zBaseOffset)
+	// the last key touched by the voxel (see calculateMaxAltitudekey). Only the returned keys are validated.
+	upperBound := calculateMaxAltitudekey(inputIndex, inputZoom, outputZoom, zBaseExponent, zBaseOffset) + 1
 
 	// Determine the vertical index/indices to return.
 	// a) always return the lowerBound index. Regardless of the difference between the inputZoom and outputZoom,
@@ -1081,6 +1080,21 @@ func calculateAltitudekey(inputIndex int64, inputZoom int64, outputZoom int64, z
 	outputIndex := common.CalculateArithmeticShift(inputIndex, -(inputZoom - consts.ZOriginValue))
 	outputIndex += zBaseOffset
 	return common.CalculateArithmeticShift(outputIndex, (outputZoom - zBaseExponent))
+}
+
+// calculateMaxAltitudekey returns the last altitudekey (inclusive) touched by the voxel with z index inputIndex.
+//
+// The upper end of the voxel is an exclusive bound, so it must not be scaled down like an index: the last 1m cell
+// below it is determined first, and that cell is then mapped to the key that contains it (coarser keys) or to its
+// last sub-key (finer keys). (For voxels smaller than 1m the caller keeps returning the minimum key only.) Scaling the exclusive bound and subtracting 1 afterwards drops the last key whenever
+// the bound is not aligned to the key size (e.g. with a zBaseOffset that is not a multiple of the key size).
+func calculateMaxAltitudekey(inputIndex int64, inputZoom int64, outputZoom int64, zBaseExponent int64, zBaseOffset int64) int64 {
+	lastMetre := common.CalculateArithmeticShift(inputIndex+1, consts.ZOriginValue-inputZoom) - 1 + zBaseOffset
+	zoomDifference := outputZoom - zBaseExponent
+	if zoomDifference > 0 {
+		return common.CalculateArithmeticShift(lastMetre+1, zoomDifference) - 1
+	}
+	return common.CalculateArithmeticShift(lastMetre, zoomDifference)
 }
 
 // validateIndexExists 指定した(拡張)空間IDインデックスが指定ズームレベルにおいて存在するか確認する
